@@ -8,7 +8,7 @@ for d in sorted(glob.glob('/verif/seeded/*/')):
     notes=''
     try:
         txt=open(d+'notes.md').read().strip().split('\n')
-        notes=txt[0].lstrip('# ').strip()[:110] if txt and txt[0] else ''
+        notes=txt[0].lstrip('# ').strip()[:110].replace('|','/') if txt and txt[0] else ''
     except Exception: pass
     caught=[f"{c['check']} ({c['violation_lines']})" for c in m['checks'] if c['violation_lines']>0]
     missed=[c['check'] for c in m['checks'] if c['violation_lines']==0]
